@@ -456,6 +456,8 @@ class ExecMixin:
                 res = If(ok, x.val != 0, BoolVal(False))
             else:
                 res = If(ok, x.val, IntVal(0))
+                if ak in ('ptr', 'chan', 'map'):
+                    st.assume(Implies(ok, And(x.val >= 0, x.val <= st.alloc)))   # a boxed pointer is a pointer
         if ins['commaok']:
             return TupleV([res, ok])
         self.oblige(st, fr, 'safety.assert', short(at).split('.')[-1], ok, site)
@@ -783,6 +785,11 @@ class ExecMixin:
         ks = set()
         for props, fields, funcs, src in self.c.owned:
             for tf in fields:
+                if tf.startswith('global:'):
+                    for g, gt in self.p.globals.items():
+                        if self.shortfn(g) == tf[7:]:
+                            ks |= self.keys_of('global:' + short(g), gt) if self.K(gt) != 'struct' else self.struct_keys(gt)
+                    continue
                 tn, fnm = tf.rsplit('.', 1)
                 for full in self.p.types:
                     if self.match_type(full, tn) and self.p.desc(full).get('kind') == 'named':
